@@ -8,7 +8,11 @@ FileItems == CASE FileId = 1 -> << <<1, 0, 2, 1>>, <<1, 3, 4, 2>>, <<1, 4, 6, 3>
                [] FileId = 3 -> << <<1, 0, 1, 1>>, <<2, 0, 1, 2>>, <<2, 1, 2, 3>>, <<3, 0, 2, 4>>, <<3, 2, 3, 5>>, <<3, 4, 5, 6>>, <<3, 5, 6, 7>> >>
 Pts(c) == {0, 6} \cup UNION {{it[2], it[3]} : it \in {x \in Range(FileItems) : x[1] = c}}
 AllQ == {<<c, s, e>> \in (1..3) \X (0..6) \X (0..6) : c \in {it[1] : it \in Range(FileItems)} /\ s \in Pts(c) /\ e \in Pts(c) /\ s <= e}
-MCInit == Init /\ hist = <<>>
+\* the reader may already be the caching reader when the history starts
+MCInit == \/ (Init /\ hist = <<>>)
+          \/ (/\ mode = "cached" /\ nodeCache = {} /\ blockCache = EmptyCache /\ idxKnown = FALSE
+              /\ last = [op |-> "cached", q |-> <<0, 0, 0>>, ans |-> <<>>] /\ steps = 0
+              /\ hist = <<[op |-> "cached", c |-> 0, s |-> 0, e |-> 0]>>)
 MCNext == /\ steps < MaxSteps
           /\ \/ \E q \in Queries : (Interval(q) /\ hist' = Append(hist, [op |-> "interval", c |-> q[1], s |-> q[2], e |-> q[3]]))
                                 \/ (Values(q) /\ hist' = Append(hist, [op |-> "values", c |-> q[1], s |-> q[2], e |-> q[3]]))
